@@ -1,11 +1,17 @@
 import EzdxfVerif.Model.Readers
+import EzdxfVerif.Model.ReadersWrite
+import EzdxfVerif.Model.ReadersDetect
+import EzdxfVerif.Model.ReadersLines
+import EzdxfVerif.Model.ReadersRepair
+import EzdxfVerif.Model.ReadersSniff
+import EzdxfVerif.Model.ReadersRecVer
 import EzdxfVerif.Gen.ReaderTables
 import Drivers.Proto
 open EzdxfVerif EzdxfVerif.Readers Proto
 
 /-! line protocol of C08
   tags   = `code,value;code,value;...`   value: printable text, `%N.` = code point N (for `% ; | ,` and non-ASCII)
-  rd|READER|MSP|PSP|tags        READER in strict iter sp0 sp1 idx rec; MSP/PSP = owner handles of the layout block records
+  rd|READER|MSP|PSP|tags        READER in strict strictf iter sp0 sp1 idx rec; MSP/PSP = owner handles of the layout block records
                                 -> `ok TYPE:HANDLE[sub,sub]seqend;...` or `err:<class>`
   grp|tags                      -> groupTags: `n1,n2,...` sizes and first values
   jw|compact(0/1)|wtags         wtags = `s,code,value` or `v,code,x y z` separated by `;`  -> json pairs + loader result + ascii
@@ -14,6 +20,19 @@ open EzdxfVerif EzdxfVerif.Readers Proto
   ex|dup(0/1)|r12(0/1)|tags     iterdxf exporter on a well-formed source file, all delivered modelspace entities written
                                 -> `TYPE:HANDLE;...` of every group of the exported file, or `err`
   wf|MSP|PSP|tags               -> FileWF' of the driver's Cfg (1/0)
+  wd|MSP|PSP|r12|hdr|cls|tab|blk|obj|acds|stored|msp|psp   the parts of a document exported one by one (bodies as tags;
+                                acds `-` = none; stored = `name~tags^...`; entity = `main~sub~sub!seqend`, entities joined by `^`)
+                                -> `DocOK|flagsOK|reorder filter is the identity on it|tags of writeDoc`
+  r12x|hdr|tab|blk|msp|psp      the parts of an r12export run (section bodies; the tags of the two exported entity spaces)
+                                -> `DocOK|tags of r12exportFile`
+  xb|src triples|nPrefix|objStart,objLen or -|written tags   -> the bytes of the iterdxf exporter's output file
+  loc|c,val,crlf;...            -> fileindex locations (byte offsets) of the structure tags
+  ro|tags                       -> recover's tag_reorder_layer on a raw tag stream
+  ln|bytes (decimal, blank separated)  -> `T<tags>|B<tags>|G<tags>`: ascii_tags_loader on a text-mode stream, bytes_loader,
+                                iterdxf binary_tagger (`err` for an invalid group code line)
+  det|tags                      -> `ver,enc|ver,enc|enc|enc` decisions of dxf_info, fileindex.load, single_pass_modelspace, detect_encoding
+  detv|tags                     -> Recover.run().dxfversion
+  bin|bytes (decimal, blank separated)  -> encoding chosen by binary_tags_loader.scan_params or `err`
   jl|jtags                      jtags = `s,code,value` or `v,code,x y z`  -> json_tag_loader result
 -/
 
@@ -33,7 +52,7 @@ def unesc (s : String) : String := Id.run do
 
 def esc (s : String) : String :=
   String.join (s.toList.map fun c =>
-    if c = '%' ∨ c = ';' ∨ c = '|' ∨ c = ',' ∨ c = '[' ∨ c = ']' ∨ c = ':' ∨ c.toNat < 32 ∨ c.toNat > 126 then s!"%{c.toNat}." else c.toString)
+    if c = '%' ∨ c = ';' ∨ c = '|' ∨ c = ',' ∨ c = '[' ∨ c = ']' ∨ c = ':' ∨ c = '!' ∨ c = '~' ∨ c = '^' ∨ c.toNat < 32 ∨ c.toNat > 126 then s!"%{c.toNat}." else c.toString)
 
 def parseTag (s : String) : Option Tag :=
   match s.splitOn "," with
@@ -81,7 +100,10 @@ def handleOf (g : Group) : String := (firstVal 5 g).getD "-"
 
 def showEnt (e : Ent) : String :=
   esc (dxftype e.main) ++ ":" ++ esc (handleOf e.main) ++ "[" ++ ",".intercalate (e.subs.map (fun s => esc (handleOf s))) ++ "]"
-    ++ (match e.seqend with | some s => esc (handleOf s) | none => "")
+    -- a SEQEND without handle (R12 files without handles) is shown like a missing one: the Drawing readers create a
+    -- SEQEND with a fresh handle when it is missing, so the two cases cannot be told apart on the implementation side
+    ++ (match e.seqend with | some s => (match firstVal 5 s with | some h => esc h | none => "") | none => "")
+    ++ (if dxftype e.main = "TEXT" then "=" ++ esc ((firstVal 1 e.main).getD "") else "")
 
 def showRes : Except Err (List Ent) → String
   | .ok es => "ok " ++ ";".intercalate (es.map showEnt)
@@ -124,6 +146,9 @@ def step (line : String) : String :=
         | .error e => .error e
       match rdr with
       | "strict" => showRes (sup (strictModelspace cfg f))
+      | "strictf" => (match strictFileModelspace cfg f with            -- ezdxf.readfile: sniffer in front of ezdxf.read
+                      | some r => showRes (sup r)
+                      | none => "err:OSError")
       | "rec" => showRes (sup (recoverModelspace cfg f))
       | "iter" => showRes (iterModelspace cfg f)
       | "sp0" => showRes (singlePass cfg false f)
@@ -171,6 +196,107 @@ def step (line : String) : String :=
     match parseTags ts with
     | none => "bad-op tags"
     | some f => if FileWF' (mkCfg msp psp) Gen.ReaderTables.maxGroupCode f then "1" else "0"
+  | ["wd", msp, psp, r12, hdr, cls, tab, blk, obj, acds, stored, mspE, pspE] =>
+    let parseEnt := fun (x : String) => match x.splitOn "!" with
+      | [gs, sq] => do
+        let groups ← (gs.splitOn "~").mapM parseTags
+        let q ← (if sq.isEmpty then some none else (parseTags sq).map some)
+        match groups with
+        | main :: subs => some (Ent.mk main subs q)
+        | [] => none
+      | _ => none
+    let parseEnts := fun (x : String) => if x.isEmpty then some [] else (x.splitOn "^").mapM parseEnt
+    let parseSec := fun (x : String) => match x.splitOn "~" with
+      | [n, b] => (parseTags b).map (fun t => Section.mk (unesc n) t)
+      | _ => none
+    let d : Option DocW := do
+      let h ← parseTags hdr
+      let c ← parseTags cls
+      let t ← parseTags tab
+      let b ← parseTags blk
+      let o ← parseTags obj
+      let a ← (if acds = "-" then some none else (parseTags acds).map some)
+      let st ← (if stored.isEmpty then some [] else (stored.splitOn "^").mapM parseSec)
+      let m ← parseEnts mspE
+      let p ← parseEnts pspE
+      some { r12 := r12 = "1", header := h, classes := c, tables := t, blocks := b, objects := o, acds := a, stored := st,
+             msp := m, psp := p }
+    match d with
+    | none => "bad-op wd"
+    | some d =>
+      let cfg := mkCfg msp psp
+      (if DocOK cfg Gen.ReaderTables.maxGroupCode d then "1" else "0") ++ "|" ++ (if flagsOK cfg d then "1" else "0")
+        -- recover's coordinate re-ordering filter leaves the written stream alone
+        ++ "|" ++ (if tagReorderLayer Gen.ReaderTables.coordinateFixing (writeDoc d) == writeDoc d then "1" else "0")
+        ++ "|" ++ showTags (writeDoc d)
+  | ["ln", bs] =>
+    match (if bs.isEmpty then some [] else (bs.splitOn " ").mapM String.toNat?) with
+    | none => "bad-op bytes"
+    | some data =>
+      let showR := fun (pre : String) (r : Except LErr (List RawTag)) => match r with
+        | .ok ts => pre ++ ";".intercalate (ts.map fun t => s!"{t.code},{esc (String.ofList (t.val.map Char.ofNat))}")
+        | .error _ => pre ++ "err"
+      showR "T" (tagsText data) ++ "|" ++ showR "B" (tagsBytesLoader data) ++ "|" ++ showR "G" (tagsBinTagger data)
+  | ["r12x", hdr, tab, blk, mspT, pspT] =>
+    match parseTags hdr, parseTags tab, parseTags blk, parseTags mspT, parseTags pspT with
+    | some h, some t, some b, some m, some p =>
+      let cfg := mkCfg "-" "-"
+      -- the converted entities of the two spaces, linked as the entity linker does
+      let d := r12exportDoc h t b (Spec.link cfg (groupTags m)) (Spec.link cfg (groupTags p))
+      (if DocOK cfg Gen.ReaderTables.maxGroupCode d then "1" else "0") ++ "|"
+        ++ showTags (r12exportFile h t b d.msp d.psp)
+    | _, _, _, _, _ => "bad-op r12x"
+  | ["xb", ts, npre, obj, wr] =>
+    let parse1 := fun (x : String) => match x.splitOn "," with
+      | [c, v, f] => c.toNat?.map (fun n => ((⟨n, (unesc v).toList.map Char.toNat⟩ : RawTag), decide (f = "1")))
+      | _ => none
+    let parse2 := fun (x : String) => match x.splitOn "," with
+      | [c, v] => c.toNat?.map (fun n => (⟨n, (unesc v).toList.map Char.toNat⟩ : RawTag))
+      | _ => none
+    let objP : Option (Option (Nat × Nat)) := if obj = "-" then some none else
+      match obj.splitOn "," with
+      | [a, b] => (do let x ← a.toNat?; let y ← b.toNat?; pure (some (x, y)))
+      | _ => none
+    match (if ts.isEmpty then some [] else (ts.splitOn ";").mapM parse1), npre.toNat?, objP,
+          (if wr.isEmpty then some [] else (wr.splitOn ";").mapM parse2) with
+    | some src, some n, some o, some w => " ".intercalate ((exportBytes src n w o).map toString)
+    | _, _, _, _ => "bad-op xb"
+  | ["loc", ts] =>
+    let parse1 := fun (x : String) => match x.splitOn "," with
+      | [c, v, f] => c.toNat?.map (fun n => ((⟨n, (unesc v).toList.map Char.toNat⟩ : RawTag), decide (f = "1")))
+      | _ => none
+    match (if ts.isEmpty then some [] else (ts.splitOn ";").mapM parse1) with
+    | none => "bad-op loc"
+    | some raw =>
+      -- the locations of the structure tags up to and including EOF (fileindex.load stops there)
+      let idx := (List.range raw.length).filter (fun k => match raw[k]? with | some p => p.1.code == 0 | none => false)
+      let upto := match idx.find? (fun k => match raw[k]? with | some p => p.1.val == "EOF".toList.map Char.toNat | none => false) with
+        | some k => idx.filter (· ≤ k)
+        | none => idx
+      ",".intercalate (upto.map (fun k => toString (locationOf raw k)))
+  | ["ro", ts] =>
+    match parseTags ts with
+    | none => "bad-op tags"
+    | some f => showTags (tagReorderLayer Gen.ReaderTables.coordinateFixing f)
+  | ["det", ts] =>
+    match parseTags ts with
+    | none => "bad-op tags"
+    | some f =>
+      let tbl := Gen.ReaderTables.codepageTable
+      let a := dxfInfo tbl f
+      let b := indexInfo tbl f
+      s!"{esc a.version},{a.encoding}|{esc b.version},{b.encoding}|{(spInfo tbl f).encoding}|{recoverEnc tbl f}"
+  | ["detv", ts] =>
+    match parseTags ts with
+    | none => "bad-op tags"
+    | some f => esc (recoverVersion (mkCfg "-" "-") f)
+  | ["bin", bs] =>
+    match (bs.splitOn " ").mapM String.toNat? with
+    | none => "bad-op bytes"
+    | some data =>
+      match binScan Gen.ReaderTables.codepageTable Gen.ReaderTables.binScanFull data with
+      | none => "err"
+      | some i => i.encoding
   | ["jl", js] =>
     let parseJ := fun (x : String) => match x.splitOn "," with
       | ["s", c, v] => c.toNat?.map (fun n => JTag.single n (unesc v))
